@@ -122,6 +122,19 @@ theorem json_documents_admitted (e : SEnv) (docs : List JVal) (name : Str) (css 
   obtain ⟨d, _, hd⟩ := exceptMapM_mem _ docs css h cs hcs
   exact mapJsonDoc_nodup e d name cs hd c hccs
 
+/-- the hypotheses of `json_samples_admitted` and `json_documents_admitted` are met by real documents:
+`{"a": "x", "b": {"c": 1}}` maps without a leak, and so do the documents `{"a": 1}` and `[{"a": null}, {}]` -/
+example :
+    let e : SEnv := ⟨{ toEnv := Env.ascii, isAlphaNA := fun _ => false, floatRepr := fun s => s }⟩
+    (∃ css, [[("a".toList, JVal.scalar (.str "x".toList)), ("b".toList, .dict [("c".toList, .scalar (.int 1))])]].mapM
+      (fun d => mapDict e d "doc".toList) = some css) ∧
+    (∃ css, [JVal.dict [("a".toList, .scalar (.int 1))], .list [.dict [("a".toList, .scalar .none)], .dict []]].mapM
+      (fun d => mapJsonDoc e d "doc".toList) = .ok css) := by
+  constructor
+  · simp [mapDict, dictClass, dictAttrs, classAttribute, List.mapM_cons, List.mapM_nil]
+  · simp [mapJsonDoc, mapJsonItem, mapDict, dictClass, dictAttrs, classAttribute, List.mapM_cons, List.mapM_nil,
+      bind, Except.bind, pure, Except.pure]
+
 /-! ### down to the fields of the generated dataclasses -/
 
 /-- **xml_fields_admit_samples.** For any XML documents: run the mappers, `reduce_classes` and the
@@ -218,6 +231,58 @@ theorem filter_types_spec (types : List AType) :
       simp only [Bool.false_eq_true, if_false]
       refine ⟨by intro h; simp [h] at hem, fun t ht hn hq => h1 t ht hn hq, ?_⟩
       intro hl; omega
+
+/-! ### the nillable flag of a class (finding C13-nillable-from-first-occurrence) -/
+
+/-- full strength: a class of which some occurrence is `xsi:nil` comes out of `reduce_classes` nillable -/
+def nillable_any_occurrence : Prop :=
+  ∀ (classes cs : List Cls), reduceClasses classes = some cs →
+    ∀ c ∈ classes, c.nillable = true → ∃ m ∈ cs, m.qname = c.qname ∧ m.nillable = true
+
+/-- the occurrences `<i><a>1</a></i>` and `<i xsi:nil="true"/>` in the order in which `reduce_classes` gets them
+for `<r><i xsi:nil="true"/><i><a>1</a></i></r>` (`ClassUtils.flatten` pops inner classes from the end) -/
+def nillableWitness : List Cls :=
+  [{ qname := "i".toList, ns := none, nillable := false, mixed := false,
+     attrs := [{ tag := .element, name := "a".toList, ns := none, index := 0, types := [], min := 1, max := 1 }] },
+   { qname := "i".toList, ns := none, nillable := true, mixed := false, attrs := [] }]
+
+/-- it is false: the flag is the first occurrence's (`group[0].clone()`), only `mixed` is merged over the group -/
+theorem nillable_not_any_occurrence : ¬ nillable_any_occurrence := by
+  intro h
+  have hr : (reduceClasses nillableWitness).map (fun cs => cs.map (·.nillable)) = some [false] := by decide
+  cases hcs : reduceClasses nillableWitness with
+  | none => simp [hcs] at hr
+  | some cs =>
+    simp only [hcs, Option.map_some, Option.some.injEq] at hr
+    obtain ⟨m, hm, _, hn⟩ := h nillableWitness cs hcs (nillableWitness.getLast (by decide)) (by decide) (by decide)
+    have : m.nillable ∈ cs.map (·.nillable) := List.mem_map.2 ⟨m, hm, rfl⟩
+    rw [hr] at this
+    simp [hn] at this
+
+/-- the provable part: the class gets the flag of the occurrence that is mapped first -/
+theorem nillable_first_occurrence_partial (first : Cls) (rest cs : List Cls)
+    (h : reduceClasses (first :: rest) = some cs) : ∃ m ∈ cs, m.qname = first.qname ∧ m.nillable = first.nillable := by
+  obtain ⟨xs, G, hg⟩ := group_fold_head first rest [] []
+  have hgroups : groupByQName (first :: rest) = (first.qname, first :: xs) :: G := by
+    rw [groupByQName_eq, List.foldl_cons]
+    simpa [groupStep] using hg
+  rw [reduceClasses_eq, hgroups, List.mapM_cons] at h
+  cases hm : reduceGroup (first.qname, first :: xs) with
+  | none => simp [hm] at h
+  | some m =>
+    cases hms : G.mapM reduceGroup with
+    | none => simp [hm, hms] at h
+    | some ms =>
+      simp [hm, hms] at h
+      subst h
+      refine ⟨m, by simp, ?_⟩
+      simp only [reduceGroup, Option.map_eq_some_iff] at hm
+      obtain ⟨attrs, _, hm⟩ := hm
+      subst hm
+      exact ⟨rfl, rfl⟩
+
+/-- the hypothesis is met by the witness, whose first occurrence is the one that is not nil -/
+example : (reduceClasses nillableWitness).isSome = true := by decide
 
 /-! ### the interleaving marker across occurrences -/
 
@@ -567,6 +632,14 @@ example :
   decide
 
 example : (some PyT.int, Tables.explicitTypesDt.head!.2) ∈ explicitTypes := by decide
+
+/-- both hypotheses of `infer_sound` (and of the `infer_*_roundtrip` theorems) are met together by sample values:
+`12` is inferred as the datatype the table pairs with `int`, `true` as the one of `bool`; `007` is a string -/
+example :
+    let e : SEnv := ⟨{ toEnv := Env.ascii, isAlphaNA := fun _ => false, floatRepr := fun _ => "7.0".toList }⟩
+    (some PyT.int, matchType e "12".toList) ∈ explicitTypes ∧ (some PyT.bool, matchType e "true".toList) ∈ explicitTypes ∧
+    matchType e "007".toList = Tables.dtString := by
+  decide
 
 /-! ### the generated union reads leniently (finding C13-union-member-order) -/
 
